@@ -292,6 +292,9 @@ def analyse(repo: Repo, fi: FuncInfo, node: Node, call: ast.Call, facts=None, ca
     if facts is None:
         facts = must_facts(fi.cfg)
     F = facts[node.id]
+    if any(":=" in f_[0] for f_ in F):
+        from .x_resolve import strip_walrus as _sw
+        F = _sw(F)
     from .x_resolve import resolve as _resolve
     operand = call.args[0]
     optext = q.unparse(operand)
